@@ -1,8 +1,8 @@
 /-
 Witnesses: the display clause of C01 *as stated* in `Props/C01.lean` (`frame_displays_full`) is
-false of the model — not because the renderer is wrong, but because the statement omits four
+false of the model — not because the renderer is wrong, but because the statement omits five
 side conditions.  Each theorem below refutes `frame_displays_full` from one concrete frame that
-satisfies the other three conditions, so each condition is individually necessary:
+satisfies the other four conditions, so each condition is individually necessary:
 
   W1  the terminal must give a single space the width 1 (`cw "20" = 1`): a zero-width grapheme is
       written as " " and the width oracle `cw` is also the terminal's width function;
@@ -13,7 +13,11 @@ satisfies the other three conditions, so each condition is individually necessar
   W4  a visible cursor must be requested inside the screen (else the CUP of `showCursor()` is
       outside the screen, which the reference terminal flags).
 
-`Props/C01Display.lean` proves the clause with exactly these four hypotheses added.
+  W5  the terminal must hold no stale hyperlink parameters (`t.linkParams = ""`): `Rest t` only
+      says that no hyperlink is open, but the reference terminal stores the parameters separately
+      and stamps them on every glyph.
+
+`Props/C01Display.lean` proves the clause with exactly these five hypotheses added.
 -/
 import VaxisModel.Props.C01
 
@@ -78,5 +82,19 @@ theorem frame_displays_full_fails_cursor : ¬ frame_displays_full := by
   have := h cw2 f4 t1 ⟨by decide, by decide, by decide⟩ (by decide) (by decide) (by decide) (by decide) (by decide) (by decide)
     (by decide) (by simp [Fits, f4, FitsRow, Expected.cellWidth, cw2]) (by decide) (fun h => absurd h (by decide))
   exact w4_bad this.1
+
+/-! ### W5: stale hyperlink parameters on a terminal with no hyperlink open -/
+
+def t5 : Term := { Term.init 1 1 with linkParams := "78" }
+def f5 : Frame := { caps := {}, refresh := true, next := [[({ g := "61" } : Cell)]],
+                    last := [[({} : Cell)]], cursorNext := {}, cursorLast := {} }
+
+theorem w5_differs : (run cw2 t5 (renderFrame cw2 f5).2).grid ≠ Expected.expected cw2 f5.caps f5.next := by decide
+
+theorem frame_displays_full_fails_linkParams : ¬ frame_displays_full := by
+  intro h
+  have := h cw2 f5 t5 ⟨by decide, by decide, by decide⟩ (by decide) (by decide) (by decide) (by decide) (by decide) (by decide)
+    (by decide) (by simp [Fits, f5, FitsRow, Expected.cellWidth, cw2]) (by decide) (fun h => absurd h (by decide))
+  exact w5_differs this.2.1
 
 end VaxisModel.Witness.C01Display
